@@ -88,7 +88,7 @@ class SyncLossTransport(proto_helpers.StringTransport):
 
 V4 = b"\x01\x02\x03\x04"
 V6 = bytes(range(0x20, 0x30))
-NAME = b"abc"
+NAME = b"abc" + (b"defghijklmnopqrstuvwxyz0123456789" * 8)[:252]      # 255 bytes: the longest name a reply can carry
 
 
 def stream_for(scen):
@@ -294,6 +294,10 @@ def scenarios(codes, napps=(0, 3)):
                 for alen in ((1, 3) if atyp == "dom" else (1,)):
                     for napp in (napps if req == "CONNECT" else (0,)):
                         out.append(dict(req=req, mrep="ok", rver=True, code=code, atyp=atyp, alen=alen, napp=napp))
+    # names of 127 to 255 bytes in a resolve answer (the length byte's top bit set from 128 on)
+    for req in ("RESOLVE", "RESOLVE_PTR"):
+        for alen in (127, 128, 200, 255):
+            out.append(dict(req=req, mrep="ok", rver=True, code=0, atyp="dom", alen=alen, napp=0))
     return out
 
 
@@ -303,6 +307,8 @@ def chunkings(n, mode, rng=None):
         return [[n]]
     if mode == "bytes":
         return [[1] * n]
+    if mode == "longcut":
+        return [[k, n - k] for k in (3, 6, 7, 9, 10, 11, 12, n // 2, n - 3, n - 1)]
     if mode == "cut1":
         return [[k, n - k] for k in range(1, n)]
     if mode == "cut2":
